@@ -674,9 +674,11 @@ func (p *proxy) fireAndForgetProduce(ctx context.Context, header *protocol.Reque
 
 	for addr, subReq := range groups {
 		var payload []byte
-		if len(groups) == 1 {
+		if len(groups) == 1 && originalPayload != nil {
 			payload = originalPayload
 		} else {
+			// originalPayload is nil after an LFS rewrite: the request must be
+			// re-encoded, not forwarded as an empty frame.
 			payload = encodeProduceRequest(header, subReq)
 		}
 
